@@ -3,7 +3,7 @@
 Decides (a) the gate/role protocol of Acl::SplayInserter<T>::Merge, (b) the decision tables of SplayInserter<char*>::IsSubset/Compare over their
 comparison atoms, (c) the lookup wiring of ACLDomainData::match/parse and (d) the suffix-walk decision tables of matchDomainName(h, d, mdnNone).
 It does NOT decide set equality over all value lists/insertion orders (value reasoning); see ck.assume() at the end.
-The helpers fold(), truth(), paths(), origin() and check_merge() are shared with C42/C43.
+The helpers fold(), truth(), paths(), table(), cmp_leaf(), compared_consts(), origin() and check_merge() are shared with C42/C43.
 """
 from itertools import product
 
@@ -302,7 +302,7 @@ def cmp_leaf(val, extra=lambda t: None):
     def leaf(t):
         t = E.strip(t)
         if isinstance(t, dict) and t.get("k") == "bin" and t.get("op") in ("==", "<"):
-            l, r = val(t["l"]), val(t["r"])
+            l, r = [val(x) or (("k", E.const(x)) if E.const(x) is not None else None) for x in (t["l"], t["r"])]
             if l is None or r is None or (l[0] != r[0] and "k" not in (l[0], r[0])):
                 return None
             return (l[1] == r[1]) if t["op"] == "==" else (l[1] < r[1])
